@@ -260,6 +260,32 @@ func rangeParts() []string {
 	return out
 }
 
+type casingWord struct {
+	kind, word string
+	frames     []string
+}
+
+func casingWords() []casingWord {
+	var out []casingWord
+	for _, p := range prefixes {
+		if p != "" {
+			out = append(out, casingWord{"prefix", p, []string{"% 3 Sep 1901", "% Sep 1901", "% 1901", "from 1850 to % 3 Sep 1901", "bet % 1850 and 1901"}})
+		}
+	}
+	for _, m := range monthWords {
+		if _, ok := ref.MonthNames[m]; ok {
+			out = append(out, casingWord{"month", m, []string{"3 % 1901", "% 1901", "Abt. 3 % 1901", "bet 3 % 1901 and % 1902"}})
+		}
+	}
+	for _, b := range []string{"between", "bet", "bet.", "from"} {
+		out = append(out, casingWord{"between", b, []string{"% 1900 and 1950", "% 3 Sep 1900 to Abt. 1950", "% 1900 - 1950"}})
+	}
+	for _, a := range []string{"and", "to"} {
+		out = append(out, casingWord{"and", a, []string{"bet 1900 % 1950", "from 3 Sep 1900 % Oct 1950"}})
+	}
+	return out
+}
+
 var betweens = []string{"between", "bet", "bet.", "from", "Between", "BET", "Bet.", "FROM"}
 var ands = []string{"and", "to", "-", "AND", "To"}
 
@@ -291,6 +317,7 @@ func run(tier, unit string, r *vlib.Rec) {
 			r.Count("day:" + days[ix[2]])
 			r.Count("year:" + years[ix[5]])
 			r.Count("spacing:" + spacings[ix[6]])
+			r.EnterF(func() interface{} { return kase{Value: s} })
 			sig, what, class := judge(s)
 			r.Count("outcome:" + class)
 			if class == "valid" || class == "invalid" {
@@ -315,6 +342,42 @@ func run(tier, unit string, r *vlib.Rec) {
 					r.Count("and:" + strings.ToLower(aw))
 					sig, what, class := judge(s)
 					r.Count("outcome:range-" + class)
+					if class == "valid" {
+						r.Nontrivial(s)
+					}
+					if sig != "" {
+						r.Fail(sig, what, kase{Value: s})
+					}
+				}
+			}
+		}
+	case "casing": // every upper/lower pattern of every documented word, in every position it can take
+		ws := casingWords()
+		for wi := lo; wi < hi; wi++ {
+			w := ws[wi]
+			letters := 0
+			for _, c := range w.word {
+				if c >= 'a' && c <= 'z' {
+					letters++
+				}
+			}
+			for mask := 0; mask < 1<<uint(letters); mask++ {
+				b := []byte(w.word)
+				k := 0
+				for i, c := range b {
+					if c >= 'a' && c <= 'z' {
+						if mask>>uint(k)&1 == 1 {
+							b[i] = c - 32
+						}
+						k++
+					}
+				}
+				for _, f := range w.frames {
+					s := strings.Replace(f, "%", string(b), 1)
+					r.Eval()
+					r.Count("casing:" + w.kind)
+					sig, what, class := judge(s)
+					r.Count("outcome:casing-" + class)
 					if class == "valid" {
 						r.Nontrivial(s)
 					}
@@ -350,6 +413,7 @@ func plan(tier string) []string {
 	} else {
 		out = append(out, "days:1896:1905", "days:1:3", "days:9998:10000")
 	}
+	out = append(out, vlib.Chunks("casing", int64(len(casingWords())), 2)...)
 	return out
 }
 
@@ -368,7 +432,7 @@ func main() {
 		ID:    "C04",
 		Level: "exploration",
 		Rule: "cases: the product prefix(15 spellings+none) x case(3) x day class(14) x month word(23 documented + none + 4 near misses) x case(3) x year class(14) x spacing(6) x trailing junk(3) (quick: at most one of {prefix case, month case, spacing, junk} non-default); " +
-			"ranges: 8 between-words x 5 and-words x every ordered pair of " + fmt.Sprint(len(rangeParts())) + " representative date sentences; every calendar day of a year block as 'Abt. D Mon Y'. Each compared with the reference parser. Non-trivial = reference verdict valid or invalid (not unspecified); distinct by sentence.",
+			"ranges: 8 between-words x 5 and-words x every ordered pair of " + fmt.Sprint(len(rangeParts())) + " representative date sentences; every calendar day of a year block as 'Abt. D Mon Y'; every upper/lower-case pattern of every documented word (prefixes, month names, between- and and-words) in 2-5 sentence frames each. Each compared with the reference parser. Non-trivial = reference verdict valid or invalid (not unspecified); distinct by sentence.",
 		Assumptions: []string{
 			"reference parser ref/date.go (token tables from the Date doc comment and the property's 15 keyword spellings) defines the documented meaning",
 			"forms the documentation leaves open (more than one leading zero, year 0, 5-digit years) are judged only for no-crash and print/parse stability",
